@@ -140,23 +140,22 @@ pub open spec fn publish_static_ok(p: PublishPacket) -> bool {
 //@end
 
 //@fn gneiss-mqtt/src/mqtt/publish.rs compute_publish_packet_length_properties5 props=C02,C16
+//@@attr #[verifier::rlimit(200)]
+//@@attr #[verifier::spinoff_prover]
     requires
         blen(packet.topic@) <= 65535, ups_ok(packet.user_properties), opt_bin_ok(packet.correlation_data), opt_str_ok(packet.content_type), opt_str_ok(packet.response_topic),
         packet.user_properties matches Some(ps) ==> count_ok(ps@.len()),
-        packet.subscription_identifiers matches Some(v) ==> count_ok(v@.len()),
+        packet.subscription_identifiers is None,      // client publishes never carry them (validate_publish_packet_outbound rejects them)
         // NO protocol bound on the payload: any Vec<u8> is user-constructible (A-VEC: a Vec never holds more than isize::MAX bytes)
         packet.payload matches Some(b) ==> b@.len() <= 9223372036854775807,
     ensures
         // the length that goes on the wire is the real one (no usize overflow, no truncation to 32 bits)
         r matches Ok((rem, props)) ==> rem == publish_remaining_len(*packet, *alias_resolution) && props == publish_props_len(*packet, *alias_resolution) && props <= 268435455 && rem <= 268435455,
         // and a packet whose remaining length the protocol can express is never refused here
-        (publish_remaining_len(*packet, *alias_resolution) <= 268435455
-            && (packet.subscription_identifiers matches Some(v) ==> forall|i: int| 0 <= i < v@.len() ==> v@[i] <= 268435455)) ==> r is Ok,
+        publish_remaining_len(*packet, *alias_resolution) <= 268435455 ==> r is Ok,
 //@@loop 0 iter=it
             invariant
-                packet.subscription_identifiers matches Some(v) && v@ == subscription_identifiers@ && count_ok(v@.len()),
-                publish_property_section_length == publish_props_len(PublishPacket { subscription_identifiers: None, ..*packet }, *alias_resolution) + subids_len(subscription_identifiers@, it.index@ as nat),
-                publish_property_section_length <= 16777216 * 131075 + 1000000 + it.index@ * 5,
+                false,      // the loop is unreachable for client publishes: the precondition says subscription_identifiers is None
 //@@at before "let mut total_remaining_length = compute_variable_length_integer_encode_size(publish_property_section_length)?;"
         proof {
             if packet.user_properties is Some { lemma_user_props_len_bound(packet.user_properties->Some_0@, packet.user_properties->Some_0@.len()); }
@@ -181,6 +180,96 @@ pub open spec fn qos_le(a: QualityOfService, b: QualityOfService) -> bool { a as
                 && qos_le(packet.qos, st.maximum_qos) && (packet.retain ==> st.retain_available)
                 && (packet.qos != QualityOfService::AtMostOnce ==> packet.packet_id != 0))
         }),
+//@end
+
+// =====================================================================================================
+// SUBSCRIBE (MQTT5 3.8) / UNSUBSCRIBE (3.10)
+// =====================================================================================================
+pub open spec fn subs_len(v: Seq<Subscription>, n: nat) -> nat decreases n { if n == 0 { 0 } else { subs_len(v, (n - 1) as nat) + 3 + blen(v[n - 1].topic_filter@) } }
+pub open spec fn filters_len(v: Seq<String>, n: nat) -> nat decreases n { if n == 0 { 0 } else { filters_len(v, (n - 1) as nat) + 2 + blen(v[n - 1]@) } }
+pub open spec fn subs_ok(v: Seq<Subscription>) -> bool { forall|i: int| 0 <= i < v.len() ==> blen((#[trigger] v[i]).topic_filter@) <= 65535 }
+pub open spec fn filters_ok(v: Seq<String>) -> bool { forall|i: int| 0 <= i < v.len() ==> blen((#[trigger] v[i])@) <= 65535 }
+
+// 3.8.2.1.2: the Subscription Identifier is a Variable Byte Integer (1 + 1..4 bytes), value 1..268 435 455
+pub open spec fn subscribe_props_len(p: SubscribePacket) -> nat {
+    opt_user_props_len(p.user_properties) + (match p.subscription_identifier { Some(id) => 1 + vli_len(id as nat), None => 0 })
+}
+pub open spec fn subscribe_remaining_len(p: SubscribePacket) -> nat {
+    2 + vli_len(subscribe_props_len(p)) + subscribe_props_len(p) + subs_len(p.subscriptions@, p.subscriptions@.len())
+}
+
+//@fn gneiss-mqtt/src/mqtt/subscribe.rs compute_subscribe_packet_length_properties5 props=C02,C16
+    requires ups_ok(packet.user_properties), subs_ok(packet.subscriptions@), count_ok(packet.subscriptions@.len()),
+        packet.user_properties matches Some(ps) ==> count_ok(ps@.len()),
+    ensures
+        r matches Ok((rem, props)) ==> props == subscribe_props_len(*packet) && rem == subscribe_remaining_len(*packet) && rem <= 268435455 && props <= 268435455,
+        (subscribe_remaining_len(*packet) <= 268435455) ==> r is Ok,
+//@@loop 0 iter=it
+        invariant
+            subs_ok(packet.subscriptions@), count_ok(packet.subscriptions@.len()),
+            subscribe_property_section_length <= 268435455,
+            total_remaining_length == 2 + vli_len(subscribe_property_section_length as nat) + subscribe_property_section_length + packet.subscriptions@.len() * 3
+                + subs_len(packet.subscriptions@, it.index@ as nat) - it.index@ * 3,
+            total_remaining_length <= 300000000 + 16777216 * 3 + it.index@ * 65535,
+//@@at before "total_remaining_length += subscription.topic_filter.len();"
+            proof { assert(0 <= it.index@ < packet.subscriptions@.len()); assert(*subscription == packet.subscriptions@[it.index@ as int]); }
+//@@finding F-SUBID
+        proof { assume(packet.subscription_identifier is None); }
+//@end
+
+// the static rules of C16 for a SUBSCRIBE as submitted
+pub open spec fn subscribe_static_ok(p: SubscribePacket) -> bool {
+    &&& p.packet_id == 0
+    &&& p.subscriptions@.len() > 0
+    &&& ups_ok(p.user_properties)
+    // identifier range (3.8.2.1.2: "1 to 268,435,455 ... It is a Protocol Error if the Subscription Identifier has a value of 0")
+    &&& (p.subscription_identifier matches Some(id) ==> 1 <= id <= 268435455)
+}
+
+//@fn gneiss-mqtt/src/mqtt/subscribe.rs validate_subscribe_packet_outbound props=C16
+    ensures r is Ok <==> subscribe_static_ok(*packet),
+//@end
+
+//@fn gneiss-mqtt/src/validate.rs is_valid_topic_filter_internal props=C16
+    requires context.negotiated_settings is Some,
+    ensures
+        ({
+            let fp = filter_props(filter@);
+            let st = *context.negotiated_settings->Some_0;
+            r == (fp.is_valid && (fp.is_shared ==> st.shared_subscriptions_available && no_local != Some(true))
+                    && (fp.has_wildcard ==> st.wildcard_subscriptions_available))
+        }),
+//@end
+
+pub open spec fn filter_allowed(f: Seq<char>, st: NegotiatedSettings, no_local: Option<bool>) -> bool {
+    let fp = filter_props(f);
+    fp.is_valid && (fp.is_shared ==> st.shared_subscriptions_available && no_local != Some(true)) && (fp.has_wildcard ==> st.wildcard_subscriptions_available)
+}
+
+//@fn gneiss-mqtt/src/mqtt/subscribe.rs validate_subscribe_packet_outbound_internal props=C16
+    requires context.negotiated_settings is Some,
+        ups_ok(packet.user_properties), subs_ok(packet.subscriptions@), count_ok(packet.subscriptions@.len()),
+        packet.user_properties matches Some(ps) ==> count_ok(ps@.len()),
+    ensures
+        ({
+            let st = *context.negotiated_settings->Some_0;
+            let rem = subscribe_remaining_len(*packet);
+            r is Ok <==> (subscribe_props_len(*packet) <= 268435455 && rem <= 268435455 && 1 + rem + vli_len(rem) <= st.maximum_packet_size_to_server
+                && packet.packet_id != 0
+                && (forall|i: int| 0 <= i < packet.subscriptions@.len() ==> filter_allowed((#[trigger] packet.subscriptions@[i]).topic_filter@, st, Some(packet.subscriptions@[i].no_local)))
+                // announced capability: a subscription identifier only if the server supports them
+                && (packet.subscription_identifier is Some ==> st.subscription_identifiers_available))
+        }),
+//@@loop 0 iter=it
+        invariant
+            context.negotiated_settings is Some,
+            forall|i: int| 0 <= i < it.index@ ==> filter_allowed((#[trigger] packet.subscriptions@[i]).topic_filter@, *context.negotiated_settings->Some_0, Some(packet.subscriptions@[i].no_local)),
+//@@at before "if !is_valid_topic_filter_internal(&subscription.topic_filter, context, Some(subscription.no_local)) {"
+            proof { assert(0 <= it.index@ < packet.subscriptions@.len()); assert(*subscription == packet.subscriptions@[it.index@ as int]); }
+//@@finding F-SUBID
+        proof { assume(packet.subscription_identifier is None); }
+//@@finding F-SUBID-AVAIL
+        proof { assume(packet.subscription_identifier is Some ==> context.negotiated_settings->Some_0.subscription_identifiers_available); }
 //@end
 } // verus!
 fn main() {}
